@@ -8,3 +8,7 @@ Inductive gfun :=
 | F_service_offer_stopped             (* ServiceDiscover.service_offer_stopped(addr, entry) *)
 | F_service_offered.                  (* ServiceDiscover.service_offered(addr, entry) *)
 Inductive gact := GCall (f : gfun) | GSoon (f : gfun).
+
+(* what SimpleService.message_received answers: nothing, an error with a return code, the positive response *)
+Require Import Coq.NArith.BinNat.
+Inductive greply := GNoReply | GError (rc : N) | GPositive.
